@@ -84,6 +84,12 @@ func (m *mon) wideMon(toks []string, op, ans string, panicked bool, site string)
 			m.fail("verify_commit_any_sound", "verifycommitany-double-count", siteVCA,
 				fmt.Sprintf("VerifyCommitAny accepted, but the DISTINCT validators with a correctly signed precommit for this block hold %s of %s (%s)", p, m.total, op))
 		}
+	case "verifynil":
+		// a nil commit must be refused, not accepted and not a crash (VerifyCommit is what fast sync calls on peer data);
+		// VerifyCommitAny has no caller: its answer is compared with the model only
+		if panicked || !strings.HasPrefix(ans, "verify=err=") {
+			m.fail("nil_commit_refused", "nil-commit-not-refused", siteVC, "VerifyCommit(nil) answered "+ans)
+		}
 	case "cmore", "vsinfo":
 		if panicked {
 			m.fail("no_panic", "panic:"+site, site, "getter panicked on "+op)
@@ -531,6 +537,7 @@ func wideCases(g *hx.Gen) {
 			"reconstruct h=9 chain=" + ch, "reconstruct h=8 chain=" + ch, "reconstruct h=9 chain=" + hexs("other")}, true)
 		g.Case("restart: stored commit is for another block than it claims", []string{"case", vl, "cnew bid=" + B.tok(), c.good(0, B2).line("cslot", 1), c.good(1, B2).line("cslot", 2),
 			c.good(2, B2).line("cslot", 3), "cslot nil", "reconstruct h=9 chain=" + ch}, true)
+		g.Case("nil commit", []string{"case", vl, "verifynil chain=" + ch + " bid=" + B.tok()}, true)
 		g.Case("restart: empty and all-nil stored commits", []string{"case", vl, "cnew bid=" + B.tok(), "cmore", "reconstruct h=9 chain=" + ch, "cslot nil", "cslot nil", "cslot nil", "cslot nil",
 			"reconstruct h=9 chain=" + ch}, true)
 	}
